@@ -74,7 +74,13 @@ func zzPostDo(_ *http.Client, req *http.Request) (*http.Response, error) {
 	}
 	h.Set("Content-Type", a.media)
 	a.body = &zzPostBody{}
-	return &http.Response{StatusCode: a.status, Header: h, Body: a.body}, nil
+	// resp.Request is the request that produced THIS response — after net/http followed a redirect, the last one of the
+	// chain, addressed to wherever the endpoint pointed, not the one the client built for the configured endpoint
+	via := req
+	if (a.status == 401 || a.status == 403) && vBool("answerCameAfterARedirect") {
+		via = (&http.Request{Method: req.Method, Header: http.Header{}}).WithContext(req.Context())
+	}
+	return &http.Response{StatusCode: a.status, Header: h, Body: a.body, Request: via}, nil
 }
 func zzPostMedia(v string) string { return v }
 func zzPostEncode(msg jsonrpc.Message) ([]byte, error) { return vJSON(msg), nil }
@@ -151,6 +157,9 @@ func (zzPostOAuth) TokenSource(context.Context) (oauth2.TokenSource, error) {
 }
 func (zzPostOAuth) Authorize(ctx context.Context, req *http.Request, resp *http.Response) error {
 	zzPost.authz++
+	// (C15) the handler derives the resource it asks a token for from req: it is the request for the configured
+	// endpoint, whatever chain of redirects produced the challenge
+	vAssert(len(zzPost.reqs) > 0 && req == zzPost.reqs[len(zzPost.reqs)-1], "C15.post.authorize-is-asked-about-the-configured-endpoint")
 	resp.Body.Close()
 	if zzPost.authzCancels != nil {
 		zzPost.authzCancels()
